@@ -20,6 +20,9 @@ type Script struct {
 	// setlocale, require, load); they double as interferers in the quick
 	// tier, all observers do in the thorough tier.
 	Active bool
+	// Triple marks the observers used in the triple families: one per
+	// process-level facility.
+	Triple bool
 }
 
 // Interferers mutate whatever could conceivably be shared between two
@@ -332,7 +335,7 @@ var Interferers = []Script{
 // depends on real time, addresses, PIDs, the environment or the moment at
 // which Go's collector runs may appear here.
 var Observers = []Script{
-	{Name: "rand_seeded_int", Active: true, Stmts: []string{
+	{Name: "rand_seeded_int", Active: true, Triple: true, Stmts: []string{
 		`math.randomseed(7)`,
 		`emit(math.random(10^6))`,
 		`emit(math.random(10^6))`,
@@ -348,7 +351,7 @@ var Observers = []Script{
 		`emit(math.random(100))`,
 		`emit(math.random(-5, 5))`,
 	}},
-	{Name: "gc_isrunning", Stmts: []string{
+	{Name: "gc_isrunning", Triple: true, Stmts: []string{
 		`emit(collectgarbage("isrunning"))`,
 		`x = 1`,
 		`emit(collectgarbage("isrunning"))`,
@@ -359,7 +362,7 @@ var Observers = []Script{
 		`emit(collectgarbage("step"))`,
 		`emit(collectgarbage("collect"))`,
 	}},
-	{Name: "gc_stop_restart_cycle", Active: true, Stmts: []string{
+	{Name: "gc_stop_restart_cycle", Active: true, Triple: true, Stmts: []string{
 		`collectgarbage("stop")`,
 		`emit(collectgarbage("isrunning"))`,
 		`collectgarbage("restart")`,
@@ -375,7 +378,7 @@ var Observers = []Script{
 		`emit(("a"):upper())`,
 		`emit(("Hello"):lower():len())`,
 	}},
-	{Name: "str_meta_identity", Stmts: []string{
+	{Name: "str_meta_identity", Triple: true, Stmts: []string{
 		`emit(getmetatable("").__index == string)`,
 		`emit(type(getmetatable("")))`,
 		`mt = getmetatable("")`,
@@ -392,13 +395,13 @@ var Observers = []Script{
 		`emit(type(_G), _G._G == _G)`,
 		`emit(type(tostring), type(next), type(require))`,
 	}},
-	{Name: "globals_names", Stmts: []string{
+	{Name: "globals_names", Triple: true, Stmts: []string{
 		`n = 0 for k in pairs(_G) do n = n + 1 end`,
 		`emit(n)`,
 		`t = {} for k in pairs(_G) do t[#t + 1] = k end table.sort(t)`,
 		`emit(table.concat(t, ","))`,
 	}},
-	{Name: "lib_field_names", Stmts: []string{
+	{Name: "lib_field_names", Triple: true, Stmts: []string{
 		`function keys(t) local r = {} for k in pairs(t) do r[#r + 1] = tostring(k) end table.sort(r) return table.concat(r, ",") end`,
 		`emit(keys(string))`,
 		`emit(keys(table), keys(math))`,
@@ -414,7 +417,7 @@ var Observers = []Script{
 		`emit(1/0, -1/0, 0/0 ~= 0/0)`,
 		`emit(7 // 2, 7 % -3, 2^0.5)`,
 	}},
-	{Name: "io_default_files", Stmts: []string{
+	{Name: "io_default_files", Triple: true, Stmts: []string{
 		`emit(type(io.output()))`,
 		`emit(io.type(io.stdout), io.type(io.output()))`,
 		`emit(io.output() == io.stdout, io.input() == io.stdin)`,
@@ -426,13 +429,13 @@ var Observers = []Script{
 		`g = io.open("$D/obs_$R.txt")`,
 		`emit(g:read("a")) g:close()`,
 	}},
-	{Name: "ctx_root", Stmts: []string{
+	{Name: "ctx_root", Triple: true, Stmts: []string{
 		`c = runtime.context()`,
 		`emit(c.status, tostring(c.kill), tostring(c.stop))`,
 		`emit(c.kill.cpu, c.kill.memory, c.kill.millis)`,
 		`emit(c.flags, c.due)`,
 	}},
-	{Name: "ctx_nested_cpu", Active: true, Stmts: []string{
+	{Name: "ctx_nested_cpu", Active: true, Triple: true, Stmts: []string{
 		`c = runtime.callcontext({kill = {cpu = 5000}}, function() local n = 0 for i = 1, 100 do n = n + i end return n end)`,
 		`emit(c.status)`,
 		`emit(c.kill.cpu, c.kill.memory)`,
@@ -449,7 +452,7 @@ var Observers = []Script{
 		`emit(c.used.cpu >= 300)`,
 		`emit(runtime.context().status)`,
 	}},
-	{Name: "coro_roundtrip", Active: true, Stmts: []string{
+	{Name: "coro_roundtrip", Active: true, Triple: true, Stmts: []string{
 		`co = coroutine.create(function(a) local b = coroutine.yield(a + 1) return b * 2 end)`,
 		`emit(coroutine.resume(co, 1))`,
 		`emit(coroutine.status(co))`,
@@ -461,7 +464,7 @@ var Observers = []Script{
 		`emit(g(), g())`,
 		`emit(coroutine.isyieldable(), coroutine.running())`,
 	}},
-	{Name: "recursion_depth_120", Active: true, Stmts: []string{
+	{Name: "recursion_depth_120", Active: true, Triple: true, Stmts: []string{
 		`function sum(n) if n == 0 then return 0 end return n + sum(n - 1) end`,
 		`emit(sum(120))`,
 		`emit(sum(9), sum(11), sum(10))`,
@@ -473,19 +476,19 @@ var Observers = []Script{
 		`emit(f(), g(), f(), g())`,
 		`emit(select(2, debug.getupvalue(f, 1)), select(2, debug.getupvalue(g, 1)))`,
 	}},
-	{Name: "debug_hook_none", Stmts: []string{
+	{Name: "debug_hook_none", Triple: true, Stmts: []string{
 		`emit(debug.gethook())`,
 		`x = 0 for i = 1, 10 do x = x + i end`,
 		`emit(x, debug.gethook())`,
 		`emit(HOOKS)`,
 	}},
-	{Name: "basic_type_metatables", Stmts: []string{
+	{Name: "basic_type_metatables", Triple: true, Stmts: []string{
 		`emit(getmetatable(1), getmetatable(nil), getmetatable(true), getmetatable(print))`,
 		`emit((pcall(function() return (1).foo end)), (pcall(function() return (nil).foo end)))`,
 		`emit(tostring(1), tostring(true), tostring(nil))`,
 		`emit((pcall(function() return (2)() end)), (pcall(function() return #5 end)))`,
 	}},
-	{Name: "pkg_loaded_identity", Stmts: []string{
+	{Name: "pkg_loaded_identity", Triple: true, Stmts: []string{
 		`emit(package.loaded.string == string, package.loaded.math == math, package.loaded._G == _G)`,
 		`emit(package.path, package.cpath)`,
 		`emit(package.config)`,
@@ -497,7 +500,7 @@ var Observers = []Script{
 		`emit((pcall(require, "m1")))`,
 		`emit(#package.searchers, GLOB_FROM_MOD)`,
 	}},
-	{Name: "os_locale_query", Active: true, Stmts: []string{
+	{Name: "os_locale_query", Active: true, Triple: true, Stmts: []string{
 		`ok, v = pcall(os.setlocale, nil)`,
 		`emit(ok, ok and v)`,
 		`emit(os.setlocale("C"))`,
@@ -580,7 +583,7 @@ var Observers = []Script{
 		`emit(math.tointeger(3.0), math.type(1), math.type(1.0), math.type("1"))`,
 		`emit(math.fmod(7, 3), math.sqrt(16), math.ult(1, -1))`,
 	}},
-	{Name: "warn_state", Active: true, Stmts: []string{
+	{Name: "warn_state", Active: true, Triple: true, Stmts: []string{
 		`warn("off-by-default")`,
 		`emit(type(warn))`,
 		`warn("@on") warn("visi", "ble")`,
